@@ -49,6 +49,12 @@ def payload_classes_are_parser_private(prog: Program) -> List[str]:
     return bad
 
 
+def _is_new(key: str) -> bool:
+    from .pathsim import is_new_helper
+
+    return is_new_helper(key)
+
+
 def _desc(site: Site) -> str:
     return "%s: %s" % (site.what, norm(site.node)[:90])
 
@@ -87,6 +93,13 @@ def rule_no_operand_mutation(ctx: Ctx, rule: str = "operand-mutation") -> None:
                     continue
                 callee_reports_itself = not is_private(site.via) and site.via not in SELF_MUTATORS and site.via not in actions
                 if callee_reports_itself:
+                    continue
+                if is_private(fi.key) and fi.key not in actions and fi.key not in SELF_MUTATORS and _is_new(fi.key):
+                    # a private helper extracted later that hands its own argument on to another private helper: like a
+                    # direct edit, judged where this helper is called (the effect is part of its summary).  The private
+                    # functions of the reference tree are not exempt: the tactics are reached through a table, not by
+                    # calls that could be judged
+                    ctx.ok(rule, fi.key, "private helper passes its argument to an editing helper; judged at its call sites: " + norm(site.node)[:50], nontrivial=False)
                     continue
             elif is_private(fi.key) and fi.key not in actions:
                 # a private helper editing its own argument: judged where it is called
@@ -155,6 +168,67 @@ def rule_no_global_mutation(ctx: Ctx, rule: str = "module-state") -> None:
         for node in ast.walk(fi.node):
             if isinstance(node, ast.Global):
                 ctx.violation(rule, fi.key, "%s declares global %s" % (fi.key, ", ".join(node.names)), "a function rebinds module state", where=fi.where)
+
+
+_MUTABLE_CALLS = ("list", "dict", "set", "defaultdict", "collections.defaultdict", "OrderedDict", "collections.OrderedDict", "deque", "collections.deque", "bytearray")
+
+
+def _is_mutable_value(v: ast.AST) -> bool:
+    if isinstance(v, (ast.List, ast.Dict, ast.Set, ast.ListComp, ast.DictComp, ast.SetComp)):
+        return True
+    return isinstance(v, ast.Call) and norm(v.func) in _MUTABLE_CALLS
+
+
+def rule_instance_fields_own(ctx: Ctx, rule: str = "shared-default") -> None:
+    """History independence: a mutable object bound at class level under the name of an instance field (`terms:
+    List[..] = []` next to `self.terms = ...`) is ONE object for every instance that does not store its own - an
+    in-place edit of one instance's field (the library's own `.terms.remove(..)`, `.terms[i] = ..`, or the caller's)
+    then shows in all of them, operands of earlier calls included.  For every such name the constructor must store
+    the instance's own object on every returning path; and no method may edit the field of an instance in place
+    while the class-level object can still be what it holds."""
+    from .loader import AnalysisError
+    from .pathsim import Sim
+
+    prog = ctx.prog
+    n = 0
+    for cname, ci in sorted(prog.classes.items()):
+        if ci.is_dataclass or any(norm(b).split(".")[-1] == "NamedTuple" for b in ci.node.bases):
+            continue  # their class-level values are field defaults, which Python itself refuses when mutable
+        family = [c for c in prog.classes.values() if prog.is_subclass(c.name, cname) or prog.is_subclass(cname, c.name)]
+        for name, val in sorted(ci.class_assigns.items()):
+            if not _is_mutable_value(val):
+                continue
+            stored_by = []
+            for c in family:
+                for m in c.methods.values():
+                    me = m.params[0] if m.params and m.kind in ("method", "property") else None
+                    if me is None:
+                        continue
+                    for node in ast.walk(m.node):
+                        tg = node.targets if isinstance(node, ast.Assign) else [node.target] if isinstance(node, (ast.AnnAssign, ast.AugAssign)) else []
+                        for t in tg:
+                            if isinstance(t, ast.Attribute) and t.attr == name and isinstance(t.value, ast.Name) and t.value.id == me:
+                                stored_by.append(m.key)
+            if not stored_by:
+                continue  # a table of the class (TACTICS): written nowhere through an instance; module-state watches it
+            n += 1
+            construct = "%s.%s: every instance holds its own object, not the class-level %s" % (cname, name, norm(val)[:20])
+            init = prog.resolve_method(cname, "__init__")
+            if init is None:
+                ctx.violation(rule, cname, construct, "no constructor stores self.%s: instances share the class-level object" % name, where="%s:%d" % (ci.module.relpath, ci.node.lineno))
+                continue
+            me = init.params[0]
+            try:
+                paths = [p for p in Sim(prog, init).paths() if p.terminal == "return"]
+            except AnalysisError as ex:
+                ctx.cannot_decide(rule, init.key, construct, str(ex))
+                continue
+            bad = [p for p in paths if not any(e["kind"] == "store" and e["target"] == ("attr", ("param", me), name) for e in p.events)]
+            if bad:
+                ctx.violation(rule, init.key, construct, "the constructor returns without storing self.%s (path %s): such instances all share one %s, and an in-place edit of one shows in every other" % (name, bad[0].label()[:80] or "straight line", norm(val)[:20]), where=init.where)
+            else:
+                ctx.ok(rule, init.key, construct)
+    ctx.ok(rule, "-", "class-level mutable values that shadow instance fields: %d" % n, nontrivial=False)
 
 
 def rule_no_alias_results(ctx: Ctx, rule: str = "result-aliasing") -> None:
